@@ -12,7 +12,7 @@ Obs == [len |-> Len(q), cap |-> cap, empty |-> (q = <<>>), full |-> (Len(q) = ca
         peek |-> IF q = <<>> THEN <<Zero, FALSE>> ELSE <<Head(q), TRUE>>]
 
 Step(A) == /\ l <= Len(Trace) /\ l' = l + 1 /\ A
-           /\ last'.r = Ev.r /\ Obs' = Ev.o /\ Bounded'
+           /\ last'.r = Ev.r /\ ("o" \in DOMAIN Ev => Obs' = Ev.o) /\ Bounded'
 
 TReset == /\ l <= Len(Trace) /\ l' = l + 1 /\ Ev.ev = "Reset"
           /\ q' = <<>> /\ cap' = Ev.s.cap /\ last' = R("Init", <<cap'>>, <<>>)
